@@ -193,8 +193,27 @@ fn derive_pair(l: L, op: u16, ia: Ing, ib: Ing, dep: usize, r3: u128) -> (u128, 
         }
         6 => {
             // a = q*b + small: exact multiples and their neighbours
+            if (r3 >> 40) & 3 == 3 && !is_int_rhs(op) && l.w >= 16 {
+                // a divisor of more than half the width (but not the full width), so that a multi-digit divisor
+                // meets a multiplier with room: the schoolbook division's quotient-digit corrections
+                let top = if l.signed { l.w - 1 } else { l.w };
+                let nb = top / 2 + 1 + ((r3 >> 104) % (top / 2 - 2).max(1) as u128) as u32;
+                let h = r3.wrapping_mul(0x9e37_79b9_7f4a_7c15_f39c_c060_5ced_c835) ^ (r3 >> 61);
+                let v = (h & ((1u128 << (nb - 1)) - 1)) | (1u128 << (nb - 1));
+                b = if l.signed && (r3 >> 103) & 1 == 1 { v.wrapping_neg() & l.mask() } else { v };
+            }
             let bv = if is_int_rhs(op) { bl.val(b).shl(f) } else { bl.val(b) };
-            let q = Big::from_i64(((r3 >> 8) % 17) as i64 - 8);
+            // small multipliers, or a random (mostly odd) multiplier of up to 62 bits
+            let q = if (r3 >> 40) & 1 == 0 {
+                Big::from_i64(((r3 >> 8) % 17) as i64 - 8)
+            } else {
+                // as many bits as leave the product inside the type (a wrapped product is no multiple any more)
+                let room = (l.w - 1).saturating_sub(bv.bits() as u32).clamp(1, 62);
+                let k = 1 + ((r3 >> 48) % room as u128) as u32;
+                let m = ((r3 >> 60) as u64 & ((1u64 << k) - 1)) | 1;
+                let m = Big::from_u64(m);
+                if (r3 >> 41) & 1 == 1 && l.signed { m.neg() } else { m }
+            };
             let d1 = Big::from_i64((r3 % 3) as i64 - 1);
             a = l.wrap(&(&(&q * &bv) + &d1));
         }
